@@ -167,8 +167,11 @@ CLAIMED.update({
               "personalization algorithms, simulate, save, load, RNG consumption; 2 data sets, 2 seeds); TLC-simulated "
               "histories are replayed on real model objects: after every call the projected model state must be the "
               "specification's (training data / latent values present, population variables at prior modes, parameter and "
-              "population hashes unchanged by queries, caller-owned table / settings / dict unchanged) and results carrying the "
-              "same term <<call, params, inputs, seed>> must be bit-identical across different histories."),
+              "population hashes unchanged by queries, caller-owned table / Dataset object / settings objects (kept and re-used "
+              "across calls, annealing switched on) / dict unchanged, no other State holding call data reachable from the model) "
+              "and results carrying the same term <<call, params, inputs, seed>> must be bit-identical across different histories; "
+              "six directed histories (MC_ModelLifecycle.tla Script1-6: a query between two fits or not, before a save / load or "
+              "not) are generated by TLC and replayed in the same pool."),
         note=("A re-fit is modelled as built (continues from the latent values held in the state). Bounded histories; "
               "tiny cohorts and few iterations. Trusted: TLC, the replay driver, hashing of result arrays."),
         technique="TLA+ spec + TLC exhaustive; spec->code replay of call histories",
@@ -181,9 +184,14 @@ CLAIMED.update({
               "every table of <= 2 rows (3 thorough), each is built as a real DataFrame and ingested (Data.from_dataframe, "
               "Dataset, to_pandas, re-ingestion), and TLC compares the recorded canonical form, exception class, tensor "
               "padding / mask / counters and the untouched input with Canon(table) (IngestTrace.tla), checking that the records "
-              "cover the enumerated space; larger tables are sampled."),
-        note=("Visit layout only in this table (event / joint layouts are exercised through the model drivers). "
-              "Known finding: to_pandas sorts individuals by identifier."),
+              "cover the enumerated space; larger tables are sampled. Event, joint and covariate layouts: TLC checks "
+              "PermutationInvariant, OnePerIndividual and AcceptedIsConsistent of specs/IngestLayouts.tla on every table of <= 3 rows "
+              "and on the family 'three rows of one individual in any age order + one row of another'; enumerated tables are "
+              "ingested for real and TLC compares verdict, order, sorted visits with aligned values, event, covariate, tensor rows, "
+              "untouched input and the re-ingested round trip with Canon(table) (IngestLayoutsTrace.tla)."),
+        note=("Exhaustive on the enumerated small tables, larger ones sampled. Known finding: to_pandas sorts individuals by "
+              "identifier. One defect fixed (covariate column names). As-built rules kept as named constants: all-censored "
+              "event tables and single-valued covariates are refused; the event-only layout lists individuals sorted."),
         technique="TLA+ case table + TLC exhaustive; spec-enumerated cases run on the code; code->spec conformance",
         design_ref="4/C14"),
     "C15": dict(
@@ -199,12 +207,12 @@ CLAIMED.update({
         design_ref="4/C15"),
     "C16": dict(
         engine="IndParams", category="model_checking",
-        text=("TLC enumerates every container (identifier sequences incl. numeric-looking ids, 1-2 parameters out of 3 names x "
-              "3 shapes) x 4 conversion paths (table, tensor, csv, json) of specs/IndParams.tla and checks Lossless on the "
+        text=("TLC enumerates every container (5 identifier sequences incl. all-numeric ids in non-canonical form, 1-2 parameters out of 3 names x "
+              "4 shapes incl. 12 components) x 4 conversion paths (table, tensor, csv, json) of specs/IndParams.tla and checks Lossless on the "
               "intended design and LosslessExceptNamed on the as-built one (two named deviations); every case is built as a "
               "real IndividualParameters with seeded values, converted there and back, and TLC compares status, names, shapes, "
-              "identifiers and value equality with Expected (IndParamsTrace.tla), checks the addition rules (10 refusals, 1 "
-              "acceptance per case) and that the records cover the whole space."),
+              "identifiers and value equality with Expected (IndParamsTrace.tla), checks the addition rules (11 refusals, 1 "
+              "acceptance per case, on the built container and again on the converted one) and that the records cover the whole space."),
         note=("Exhaustive over the stated finite case space; values are seeded samples. Two known findings (scalar shapes, "
               "underscore in names) are modelled as named deviations so that any other deviation is still reported."),
         technique="TLA+ case table + TLC exhaustive; spec-enumerated cases run on the code; code->spec conformance",
@@ -228,7 +236,7 @@ CLAIMED.update({
         engine="SaveLoad", category="model_checking",
         text=("TLC enumerates every valid configuration of specs/SaveLoad.tla (4 model kinds x dimension 1-3 given or not x source "
               "dimension unspecified / 0 / 1 / 2 x noise default / scalar / diagonal x named or default features x instance name = "
-              "kind or custom x origin fit or hand-written file: 792 configurations) and checks SurvivesSaveLoad on the intended "
+              "kind or custom x origin fit or hand-written file: 1980 configurations) and checks SurvivesSaveLoad on the intended "
               "design and SurvivesExceptNamed on the as-built one (three named deviations); configurations are executed on the real "
               "code (tiny fit, save, load, optional hand-edited file, re-save): population variables at prior modes after the fit, "
               "derived values consistent with the saved parameters, load outcome, parameters / hyper-parameters / trajectories at "
